@@ -174,13 +174,20 @@ theorem set_step_event {v : Callback α α} {s : PSet α} (hwf : WF s) {op : Op 
     simp only [TraitSet.step] at h
     split at h <;> cases h
     · rename_i he
-      have : s = [] := List.isEmpty_iff.mp he
+      have hnil : ofList s = [] := List.isEmpty_iff.mp he
+      have : s = [] := by
+        cases s with
+        | nil => rfl
+        | cons y t =>
+          have : y ∈ ofList (y :: t) := mem_ofList.mpr (by simp)
+          rw [hnil] at this; cases this
       subst this
       exact ⟨wf_nil, by simp, fun _ => Equiv.refl _⟩
     · rename_i he
       refine ⟨wf_nil, ?_, by simp⟩
       intro e hev; cases hev
-      refine ⟨fun _ h => h, by simp, fun z => by simp, .inl (fun e => he (List.isEmpty_iff.mpr e))⟩
+      refine ⟨fun x hx => mem_ofList.mp hx, by simp, fun z => by simp [mem_ofList],
+        .inl (fun e => he (List.isEmpty_iff.mpr e))⟩
   | update args =>
     simp only [TraitSet.step] at h
     split at h <;> cases h
